@@ -117,12 +117,14 @@ struct Cfg {
 	std::string proto;
 	int n, t, variant;
 	int dealer, sigma_kind;     // dealer based sharing only
-	Cfg() : n(0), t(0), variant(0), dealer(-1), sigma_kind(0) {}
+	int sched;                  // 0 round robin, 1 reverse round robin, 2 seeded pseudo-random choice of the next party
+	Cfg() : n(0), t(0), variant(0), dealer(-1), sigma_kind(0), sched(0) {}
 	std::string id() const
 	{
 		std::ostringstream o;
 		o << proto << ";n=" << n << ";t=" << t << ";v=" << variant;
 		if (dealer >= 0) o << ";d=" << dealer << ";s=" << sigma_kind;
+		if (sched) o << ";sch=" << sched;
 		return o.str();
 	}
 };
@@ -234,6 +236,11 @@ inline bool run_world(World &W, Proto &P, uint64_t seed)
 	mcenv::set_clock(1700000000);
 	sched::Sched S(n);
 	S.horizon = 50000;
+	uint64_t pick_state = seed * 0x9e3779b97f4a7c15ULL + 12345;
+	if (W.cfg.sched == 1)
+		S.pick = [](int, const std::vector<int> &c) -> size_t { return c.size() - 1; };
+	else if (W.cfg.sched == 2)
+		S.pick = [&pick_state](int, const std::vector<int> &c) -> size_t { return (size_t)(mcenv::splitmix(pick_state) % c.size()); };
 	sched::Net ucast(n), bcast(n);
 	const int NPH = P.phases();
 	for (int i = 0; i < n; i++) W.ps[i].ret.assign(NPH, -1);
